@@ -276,12 +276,15 @@ SPEC_QUICK = [
     ("kern_pairs", 1, "FNT", [0]), ("class_kern", 1, "FNT", [0]), ("ligatures", 1, "FNT", [0]), ("multiple", 1, "FNT", [0]),
     ("alternate", 1, "FNT", [0]), ("markbase", 1, "FNT", [0]), ("singlepos", 1, "FNT", [0]), ("many_lookups", 1, "FNT", [0]),
     ("class_kern", 0, "F", [0, 1, 5, 9]), ("class_kern", 0, "N", [3]), ("zero_row_shadow", 0, "F", [0, 1, 5, 9]), ("mixed", 0, "FNT", [0, 5]),
-    ("kern_pairs", 0, "F", [0, 9]),
+    ("kern_pairs", 0, "F", [0, 9]), ("class0_column", 0, "F", [0, 1, 5, 9]), ("class0_column", 1, "N", [0, 5]),
+    ("permuted", 0, "FNT", [0]), ("permuted", 1, "FN", [0]),
 ]
 SPEC_THOROUGH = [(n, s, "FNT", [0]) for n in ("kern_pairs", "class_kern", "ligatures", "multiple", "alternate", "markbase", "singlepos", "many_lookups")
                  for s in (1, 2)] + \
     [("class_kern", 0, "FNT", list(range(10))), ("zero_row_shadow", 0, "FNT", list(range(10))), ("mixed", 0, "FNT", list(range(10))),
-     ("kern_pairs", 0, "FNT", list(range(10))), ("class_kern", 1, "F", [5]), ("kern_pairs", 1, "N", [5])]
+     ("kern_pairs", 0, "FNT", list(range(10))), ("class_kern", 1, "F", [5]), ("kern_pairs", 1, "N", [5]),
+     ("class0_column", 0, "FNT", list(range(10))), ("class0_column", 1, "FNT", list(range(10))),
+     ("permuted", 0, "FNT", [0, 5]), ("permuted", 1, "FNT", [0, 5])]
 NOPACK = [("huge_chain_format3", "FNT"), ("huge_marklig", "FN"), ("huge_ligature_set", "F")]
 
 
@@ -597,6 +600,10 @@ def _spec_shape(ctx, m, texts, rep, level):
     from vmon.oracle.hbft import HB
 
     f = _build_spec_font(m)
+    if m.get("new_order"):
+        # everything of the layout tables is in memory and keyed by glyph name; the font now
+        # gets another glyph order, so Coverage glyph lists are no longer in glyph-id order
+        f.setGlyphOrder(list(m["new_order"]))
     del hooks.events[:]
     if level:
         compact(f, level)
@@ -604,8 +611,8 @@ def _spec_shape(ctx, m, texts, rep, level):
     data = corpus.save_bytes(f)
     summ = _events(ctx, "spec")
     h = HB(data)
-    idx = {g: i for i, g in enumerate(m["order"])}
-    order = m["order"]
+    order = m.get("new_order") or m["order"]
+    idx = {g: i for i, g in enumerate(order)}
     out = []
     for t in texts:
         r = h.shape([corpus.PUA + idx[x] for x in t], {S.FEATURE: True})
@@ -619,6 +626,10 @@ def run_spec(case, ctx):
 
     rnd = random.Random("spec/%s/%s/%s/%s" % (case["name"], case["size"], case["seed"], case.get("variant", 0)))
     m, texts = S.make(case["name"], rnd, case["size"])
+    if m.get("permute"):
+        m["new_order"] = S.permute_order(rnd, m["order"], m["permute"])
+        # hmtx and cmap stay as compiled: advance and code point belong to the glyph id
+        m["advances"] = {g: m["advances"][m["order"][i]] for i, g in enumerate(m["new_order"])}
     ref = otlref.Interp(m)
     want, keep = [], []
     for t in texts:
